@@ -8,6 +8,14 @@
      a_add_entry cfg d fmt e  add e to the first record dated d; when there is none, insert a new record holding e,
                               with the configured should-total and the date written with the separator the file uses
      a_add_entry_ok           the model rejects a second open range in a record
+     a_close_in / a_stop      close the FIRST open range of the record at the given time (rejected when the end lies
+                              before the start), keeping its dash spacing, the end written in the record's / the
+                              file's clock convention; summary text is appended: the first line joins the entry's last
+                              line, the others follow (append_summary)
+     a_switch                 a_close_in, then an open range starting at the same time, in the same record
+     a_start                  resolve the summary (--summary / --resume / --resume-nth, on the records), refuse a second
+                              open range, add the open range - written in the clock convention, dash spacing and
+                              placeholder length the target record / the file uses (a_open_range) - like a_add_entry
    The files quantified over are the specification-conforming ones: [spec_state file recs] says that the lines of
    [file] are the lines of the specification records [recs] (Spec/Spec.v: any blank lines before / between / after the
    records, any of the four indentations per record, LF or CRLF per line, last line with or without newline), and that
@@ -15,12 +23,15 @@
    one (C04_spec_files_exist); by C01 these are the files the parser is specified to accept. Each theorem also says
    that the result is again such a file, so the statements chain over histories.
 
-   PARTIAL. Covered: create, track (existing record and new record). Not yet covered: start, stop, switch, pause.
+   PARTIAL. Covered: create, track, start (each into an existing record and into a record that is created), stop
+   (with the yesterday fallback and an appended summary), switch. Not yet covered: pause; the lift to whole histories
+   (each theorem returns a [spec_state] again, so the lift is an induction once pause is in); the converse direction
+   `the model rejects -> the command fails and changes nothing' beyond what C05 gives (no file is written on failure).
    The refinement is stated for arguments that are themselves specification-conforming (an entry text that is a
    specification entry, summary lines that are specification summary lines, none ending in a carriage return). *)
 From Klog Require Import Base.Prelude Base.Utf8 Model.Calendar Model.Values Model.Record Model.Lines Model.Parser
-  Model.Reconcile Model.Commands Spec.Spec Proofs.SpecEntry Proofs.SpecRecord Proofs.SpecDoc
-  Proofs.Reconcile Proofs.Commands Proofs.CommandsSpec Proofs.CommandsRefine.
+  Model.Reconcile Model.Commands Proofs.Values Spec.Spec Proofs.SpecEntry Proofs.SpecRecord Proofs.SpecDoc
+  Proofs.Reconcile Proofs.Commands Proofs.Rounding Proofs.CommandsSpec Proofs.CommandsRefine Proofs.CommandsStop.
 Open Scope Z_scope.
 
 (* the files: every rendered well-formed specification document whose last line is terminated or does not end in CR *)
@@ -63,3 +74,48 @@ Theorem C04_track_refines : forall now cfg ds file recs d se,
     exists bs', parse_text file' = Ok (Parsed (denote_recs recs') bs').
 Proof. exact track_refines. Qed.
 Print Assumptions C04_track_refines.
+
+(* start: whenever the model accepts (no open range yet, the summary resolves), the command succeeds and re-reading the
+   file yields the model's records. [summaries_ok]: whatever summary the arguments resolve to - the given text or the
+   summary of an entry of the file - is made of specification summary lines not ending in a carriage return *)
+Theorem C04_start_refines : forall now cfg a s file recs d t rs',
+  spec_state file recs -> at_date now (a_date a) = Ok d -> at_time now cfg a = COk t -> valid_time t ->
+  valid_cdate (dt d) = true -> should_fits (cfg_should cfg) ->
+  summaries_ok s (denote_recs recs) ->
+  a_start cfg d (date_format cfg (a_date a)) t (time_format cfg a) s (denote_recs recs) = COk rs' ->
+  exists file' recs',
+    exec_simple now cfg (Start a s) file = COk file' /\
+    spec_state file' recs' /\ denote_recs recs' = rs' /\
+    exists bs', parse_text file' = Ok (Parsed (denote_recs recs') bs').
+Proof. exact start_refines. Qed.
+Print Assumptions C04_start_refines.
+
+(* stop: whenever the model accepts (a record of the target date - or, without date and time selection, of the day
+   before - with an open range that does not start after the end time), the command succeeds and re-reading the file
+   yields the model's records. [open_entry_ok]: no open range line ends in a blank directly after the placeholder
+   (such a line reads back like one without the blank, but appended text would start with it). *)
+Theorem C04_stop_refines : forall now cfg a summary add_r file recs d t y rs',
+  spec_state file recs -> at_date now (a_date a) = Ok d -> at_time now cfg a = COk t -> valid_time t ->
+  plus_days (dt d) (-1) = Ok y -> valid_cdate (dt d) = true ->
+  match summary with Some s => s | None => [] end = map utf8_encode add_r -> add_ok add_r ->
+  (forall rg, In rg recs -> open_entry_ok (fst rg)) ->
+  a_stop (was_automatic a) d y t (time_format cfg a) (map utf8_encode add_r) (denote_recs recs) = COk rs' ->
+  exists file' recs',
+    exec_simple now cfg (Stop a summary) file = COk file' /\
+    spec_state file' recs' /\ denote_recs recs' = rs' /\
+    exists bs', parse_text file' = Ok (Parsed (denote_recs recs') bs').
+Proof. exact stop_refines. Qed.
+Print Assumptions C04_stop_refines.
+
+(* switch: the stop half and the start half, in one write *)
+Theorem C04_switch_refines : forall now cfg a s file recs d t rs',
+  spec_state file recs -> at_date now (a_date a) = Ok d -> at_time now cfg a = COk t -> valid_time t ->
+  (forall rg, In rg recs -> open_entry_ok (fst rg)) ->
+  (forall current summary, resolve_summary s current None = COk summary -> summary_ok summary) ->
+  a_switch d t (time_format cfg a) s (denote_recs recs) = COk rs' ->
+  exists file' recs',
+    exec_simple now cfg (Switch a s) file = COk file' /\
+    spec_state file' recs' /\ denote_recs recs' = rs' /\
+    exists bs', parse_text file' = Ok (Parsed (denote_recs recs') bs').
+Proof. exact switch_refines. Qed.
+Print Assumptions C04_switch_refines.
